@@ -454,7 +454,9 @@ class SpectralDensity(DFunction, UnitsManaged):
         t2 = other.axis
         if t1 == t2:
                       
-            f = SpectralDensity(t1, params=self.params)
+            # stored parameters are in internal units
+            with energy_units("int"):
+                f = SpectralDensity(t1, params=self.params)
             f.add_to_data(other)
             
         else:
@@ -505,7 +507,9 @@ class SpectralDensity(DFunction, UnitsManaged):
         
         """
         if self == other:
-            ocor = SpectralDensity(other.axis, other.params)
+            # stored parameters are in internal units
+            with energy_units("int"):
+                ocor = SpectralDensity(other.axis, other.params)
         else:
             ocor = other
             
@@ -579,7 +583,10 @@ class SpectralDensity(DFunction, UnitsManaged):
         """Creates a copy of the current correlation function
 
         """
-        return SpectralDensity(self.axis, self.params)
+        # stored parameters are in internal units
+        with energy_units("int"):
+            sd = SpectralDensity(self.axis, self.params)
+        return sd
 
 
     def get_CorrelationFunction(self, temperature=None, ta=None):
